@@ -21,6 +21,7 @@ RULE = ("render: formats %[-+ 0#]*[w][.p]{d,f} (all 32 flag subsets x widths {-,
 ASSUMPTIONS = ["tolerance = the format's resolution + a few ulp, so rounding and truncating renderers both pass",
                "non-canonical fields such as 1:60 are accepted; exponent notation and non-finite values are not demanded",
                "a leading '+' is not demanded of the parser (only what the library itself renders with the + flag)"]
+QUICK_SHARDS = 2
 REQUIRED_EVENTS = ["renderings", "validator_checks", "parse_checks", "grid_points", "device_layer_renderings", "device_layer_histories"]
 
 SEXA = [3, 5, 6, 8, 9]
